@@ -11,6 +11,7 @@ import (
 	"pgregory.net/rapid"
 
 	"verifharness/icbor"
+	"verifharness/icose"
 )
 
 // C09 — CBOR encode/decode is the identity on claims and stable on bytes.
@@ -426,6 +427,31 @@ func TestC10_WireFormat(t *testing.T) {
 		if msg := c10CheckWire(out, m); msg != "" {
 			t.Fatalf("C10 violated (%s route): %s\n emitted: %x\n [%s]", route, msg, out, m.ClassVector())
 		}
+		// the COSE payload is that same map: exactly the claims that are set,
+		// through the validating and the plain signer
+		if rapid.IntRange(0, 3).Draw(t, "cose") == 0 {
+			kp := keyFor(icose.EdDSA, 2)
+			for _, validating := range []bool{true, false} {
+				ev := &psatoken.Evidence{}
+				if serr := ev.SetClaims(c); serr != nil {
+					t.Fatalf("C10: SetClaims of a valid set failed: %v", serr)
+				}
+				var tok []byte
+				var serr error
+				if validating {
+					tok, serr = ev.ValidateAndSign(kp.Signer())
+				} else {
+					tok, serr = ev.Sign(kp.Signer())
+				}
+				parts, ok := icose.Split(tok)
+				if serr != nil || !ok {
+					t.Fatalf("C10: signing a valid set failed: %v", serr)
+				}
+				if msg := c10CheckWire(parts.Payload, m); msg != "" {
+					t.Fatalf("C10 violated (%s route, COSE payload, validating=%v): %s\n payload: %x\n [%s]", route, validating, msg, parts.Payload, m.ClassVector())
+				}
+			}
+		}
 		cls := []string{"route=" + route, p.String()}
 		if m.NoMeas != nil {
 			cls = append(cls, "nomeas")
@@ -555,7 +581,7 @@ func fmtI64(p *int64) string {
 
 func TestC09_RoundTrip(t *testing.T) {
 	st := NewStats("C09", "TestC09_RoundTrip", "rapid: (valid) claims-sets of both profiles, and of registered extension profiles of six styles (own codec through the helpers on either base profile, inherited codec without profile claim, inherited codec and OID name, own claim whose Go field name shadows a base field, extension of an extension; own claims absent / zero / non-zero; wire map checked by the independent reader), via setters/literals -> EncodeClaimsToCBOR -> DecodeClaimsFromCBOR: identical getter results and byte-identical re-encoding; (invalid-but-decodable) model-generated invalid tokens encoded by the independent encoder, decoded, re-encoded: encoder error or same getter results. Non-trivial = beyond the canned builder sets (48/64-byte hashes, >=2 components, optional component text, non-ASCII text, negative client id, no-measurements after a decode, invalid-but-decodable); distinct = class vector + route")
-	st.Require = []string{"valid", "invalid-decoded", "P1", "P2", "nomeas-decoded", "extension", "style=ext-p2", "style=ext-p1", "style=inherit-p1", "style=inherit-p2-oid", "style=shadow-p2", "style=nested-p2", "style=lookalike-key-p2", "ext-own-claim-values", "ext-null-claim-decoded", "ext-without-components", "ext-rich-types"}
+	st.Require = []string{"valid", "invalid-decoded", "P1", "P2", "nomeas-decoded", "extension", "style=ext-p2", "style=ext-p1", "style=inherit-p1", "style=inherit-p2-oid", "style=shadow-p2", "style=nested-p2", "style=lookalike-key-p2", "ext-own-claim-values", "ext-null-claim-decoded", "ext-without-components", "ext-rich-types", "foreign-container", "style=wide-p2"}
 	defer st.Flush(t)
 	registerMu.Lock()
 	defer registerMu.Unlock()
@@ -577,13 +603,42 @@ func TestC09_RoundTrip(t *testing.T) {
 	rapid.Check(t, func(t *rapid.T) {
 		p := drawProf(t)
 		styleLabel := ""
-		kind := rapid.SampledFrom([]string{"valid-setters", "valid-literal", "valid-decoded", "any-decoded", "any-decoded", "extension", "dup-profile-key", "ext-own-claim-values", "ext-null-claim", "ext-without-components", "ext-rich-types"}).Draw(t, "kind")
+		kind := rapid.SampledFrom([]string{"valid-setters", "valid-literal", "valid-decoded", "any-decoded", "any-decoded", "extension", "dup-profile-key", "ext-own-claim-values", "ext-null-claim", "ext-without-components", "ext-rich-types", "foreign-container"}).Draw(t, "kind")
 		var m *MClaims
 		var c psatoken.IClaims
 		var err error
 		valid := true
 		decode := psatoken.DecodeClaimsFromCBOR
 		switch kind {
+		case "foreign-container":
+			// a valid claims-set of a built-in profile whose component
+			// container is ANOTHER instantiation of the library's generic
+			// container (a vendor's component type embedding the stock one)
+			m = GenValid(t, p, false)
+			if len(m.Comps) == 0 {
+				m.Comps, m.NoMeas, m.CompsNil = []*MComp{drawComp(t, true, "foreign.c")}, nil, false
+			}
+			lit, ok := m.BuildLiteral()
+			if !ok {
+				t.Fatalf("VERIF-INFRA: valid model not representable")
+			}
+			fc := &psatoken.SwComponents[*foreignComp]{}
+			for _, x := range m.Comps {
+				if aerr := fc.Add(&foreignComp{SwComponent: *libComp(x)}); aerr != nil {
+					t.Fatalf("VERIF-INFRA: %v", aerr)
+				}
+			}
+			switch x := lit.(type) {
+			case *psatoken.P1Claims:
+				x.SwComponents = fc
+			case *psatoken.P2Claims:
+				x.SwComponents = fc
+			}
+			if verr := lit.Validate(); verr != nil {
+				t.Fatalf("VERIF-INFRA: claims with a foreign container do not validate: %v", verr)
+			}
+			c = lit
+			styleLabel = "foreign-container"
 		case "ext-rich-types":
 			// a valid claims-set of an extension with a time claim, a
 			// free-form value and a free-form map (nested maps with integer
@@ -844,6 +899,9 @@ func TestC09_RoundTrip(t *testing.T) {
 		}
 		if kind == "dup-profile-key" {
 			cls = append(cls, "dup-profile-key-decoded")
+		}
+		if kind == "foreign-container" {
+			cls = append(cls, "foreign-container")
 		}
 		if valid {
 			cls = append(cls, "valid")
